@@ -118,3 +118,28 @@ fn c07_stc_w_disp24_rejects_ldc() {
     assert!(res.is_err() && cpu.er == er0 && seam().nw == 0, "OBL:C07/stc_w_disp24/rejects_LDC_W_d24");
     kani::cover!(true, "REACH:end");
 }
+
+/// An unimplemented / illegal opcode is reported as an error wherever the code lives (the error message of the
+/// dispatcher contains address arithmetic; the anyhow shim evaluates message arguments for exactly this reason).
+fn unimplemented_opcode_at_any_code_address() {
+    let mut cpu = new_cpu();
+    let pc0 = any_code_pc();
+    // NOP, SLEEP, ORC, EXTS.W, EEPMOV prefix, an undefined first byte: all take an `unimpl!` exit of exec
+    let sel: u8 = kani::any();
+    let first: u16 = match sel % 6 {
+        0 => 0x0000,
+        1 => 0x0180,
+        2 => 0x0400,
+        3 => 0x17d0,
+        4 => 0x7b5c,
+        _ => 0x1e00,
+    };
+    let w: [u16; 4] = [kani::any(), kani::any(), kani::any(), kani::any()];
+    let _ = setup(&mut cpu, pc0, 0xff, (first >> 8) as u8, first as u8, w, 0);
+    let opcode = cpu.fetch();
+    let r = cpu.exec(opcode);
+    assert!(r.is_err(), "OBL:C15/exec/unimplemented_opcode_is_an_error_at_any_code_address");
+    kani::cover!(pc0 < 0x416900, "COVER:code_below_the_load_base");
+    kani::cover!(true, "REACH:end");
+}
+c07_stubbed_harness!(c15_unimplemented_opcode_at_any_code_address, unimplemented_opcode_at_any_code_address);
